@@ -3,7 +3,7 @@
 Copies patch.diff, the demonstration and README.md to /verif/seeded/<id>/ and writes meta.json."""
 import sys, os, shutil, json, glob
 sid, src, prop, caught, checks = sys.argv[1:6]
-rest = ' '.join(sys.argv[6:]).split(' -- ')
+rest = (" " + " ".join(sys.argv[6:])).split(" -- ")
 what, needs = rest[1].strip(), rest[2].strip()
 dst = '/verif/seeded/' + sid
 os.makedirs(dst, exist_ok=True)
